@@ -308,6 +308,7 @@ def main(prop_id, tier):
     os.makedirs(replay_dir, exist_ok=True)
     replays_done = 0
     replay_cache = {}
+    replay_tries = {}
     for tn, a in agg.items():
         paths += a["paths"]
         solver_s += a["solver_s"]
@@ -339,7 +340,8 @@ def main(prop_id, tier):
                 # counterexample: replay on the real code first
                 key = mod.classify(a["task"], o) if hasattr(mod, "classify") else o["name"]
                 ck = (tn, key)
-                if ck in replay_cache and replay_cache[ck][0] == "reproduced":
+                if ck in replay_cache and (replay_cache[ck][0] == "reproduced"
+                                           or replay_tries.get(ck, 0) >= 2):
                     st, out, path = replay_cache[ck]
                 else:
                     script = mod.replay(a["task"], o, dec_model(o.get("model_raw", {})))
@@ -352,6 +354,7 @@ def main(prop_id, tier):
                         with open(path, "w") as fh:
                             fh.write(script)
                         st, out = run_replay(path)
+                        replay_tries[ck] = replay_tries.get(ck, 0) + 1
                         replays_done += 1
                     replay_cache[ck] = (st, out, path)
                 if st == "reproduced":
